@@ -4,6 +4,13 @@
 //       construction-time constant; (b) constants are never written; (c) one critical section per call, released at
 //       return; (d) the mutex taken is the container's own; (e) the locked methods do take it.
 #include CONT_HDR
+// methods 24..27 are the iterator-pair overloads of 20..23 (fifo_cache only, see ranges.hpp)
+#if METHOD >= 24 && METHOD <= 27
+#define RANGE_ITER_FORM 1
+#define METHOD_EFF (METHOD - 4)
+#else
+#define METHOD_EFF METHOD
+#endif
 #include "clauses.hpp"
 #include "exec.hpp"
 #include "ranges.hpp"
@@ -78,13 +85,13 @@ extern "C" int harness()
 #if T_CAPPED
     sink = c.capacity();
 #endif
-#elif METHOD == M_INSERT_RANGE
+#elif METHOD_EFF == M_INSERT_RANGE
     sink = x_insert_range(c, e, n, e[0].a);
-#elif METHOD == M_ERASE_RANGE
+#elif METHOD_EFF == M_ERASE_RANGE
     sink = x_erase_range(c, e, n);
-#elif METHOD == M_FIND_RANGE
+#elif METHOD_EFF == M_FIND_RANGE
     sink = x_find_range(c, e, n, e[0].pk, out, &ko);
-#elif METHOD == M_FIND_RANGE_FILL
+#elif METHOD_EFF == M_FIND_RANGE_FILL
     x_find_range_fill(c, e, n, e[0].pk, out, &ko);
 #else
     // single-key methods, clean_expired_values, dynamically_age, clear, update_ttl: exec_call without the observers
